@@ -25,6 +25,8 @@ structure Heap where
   live : Nat → Bool := fun _ => false   -- the live set
   trace : List Ev := []                 -- newest first
   bad : Option Bad := none              -- the first ownership violation
+  base : Nat := 0                       -- ghost: ids below `base` belong to other owners (parser, body reader)
+  snap : Nat → Bool := fun _ => false   -- ghost: their liveness when the current owner started
 
 namespace Heap
 
@@ -318,11 +320,16 @@ def releaseBody (o : O) : O :=
 /-- releaseResponse -/
 def release (o : O) : O := releaseBody (releaseBuf o)
 
-/-- ServerProcessor.flushResponse -/
-def finish (e : Env) (o : O) : O × Bool :=
+/-- flushResponse up to `res.flush(conn)` -/
+def finishFlush (e : Env) (o : O) : O × Bool :=
   let o := encodeHead e o
-  let (o, ok) := if e.chunked then flushChunked e o else flushIdentity e o
-  (release o, ok)
+  if e.chunked then flushChunked e o else flushIdentity e o
+
+/-- ServerProcessor.flushResponse (releaseRequest — which runs between the flush and releaseResponse —
+touches the request's buffers only: `OwnBody.complete`) -/
+def finish (e : Env) (o : O) : O × Bool :=
+  let p := finishFlush e o
+  (release p.1, p.2)
 
 inductive Op
   | write (l : Nat) | flush | readFrom (k : RKind) (n : Nat) | finish
